@@ -639,7 +639,11 @@ class _SetOperation(Selectable, Term):  # type:ignore[misc]
 
     def get_sql(self, ctx: SqlContext) -> str:
         set_operation_template = " {type} {query_string}"
-        set_ctx = ctx.copy(subquery=self.base_query.wrap_set_operation_queries)
+        # operands are parenthesised unless the builder opted out or the dialect being rendered is MySQL (whose
+        # convention is not to), so a set operation built with the generic classes follows a MySQL statement it is nested in
+        set_ctx = ctx.copy(
+            subquery=self.base_query.wrap_set_operation_queries and ctx.dialect != Dialects.MYSQL
+        )
 
         def operand_sql(query: "QueryBuilder") -> str:
             # an operand with its own ORDER BY / LIMIT / OFFSET needs parentheses in every dialect
